@@ -458,6 +458,35 @@ def stepPipe (s : State) (w : List String) : State × String :=
           ({ s with st := st, fs := fs }, "ok")
       | _, _ => (s, "bad-op")
     | _, _ => (s, "bad-op")
+  | ["pipe", "sfr", ids, idn, kcd] =>
+    match parseIdent ids, idn.toNat?, parseBool kcd with
+    | some i, some id, some keyCD =>
+      match i.name.presentation with
+      | some p =>
+        let key := (CacheKey.mk p i.qtype i.qclass keyCD none).hash H
+        let st := setFromResponse s.st key id p i.qtype i.qclass keyCD none none
+        let fs := resetQuestion H s.fs p i.qtype i.qclass keyCD none
+        ({ s with st := st, fs := fs }, s!"ok key={hex16 key}")
+      | none => (s, "bad-op")
+    | _, _, _ => (s, "bad-op")
+  | ["pipe", "zfail", qs, zn, idn] =>
+    match parseIdent qs, parseName zn, idn.toNat? with
+    | some q, some z, some id =>
+      match z.presentation with
+      | some zp =>
+        let fs := recordZoneFailure H s.fs id zp q.qclass
+        match fs.find? (·.2.id == id) with
+        | some (h, _) => ({ s with fs := fs }, s!"ok f={hex16 h}")
+        | none => ({ s with fs := fs }, "ok unrecorded")
+      | none => (s, "bad-op")
+    | _, _, _ => (s, "bad-op")
+  | ["pipe", "zclear", qs, zn, _] =>
+    match parseIdent qs, parseName zn with
+    | some q, some z =>
+      match z.presentation with
+      | some zp => ({ s with fs := resetZone H s.fs (canonicalName zp) q.qclass }, "ok")
+      | none => (s, "bad-op")
+    | _, _ => (s, "bad-op")
   | ["pipe", "fset", spec, kind, ids, idn] =>
     match parseIdent ids, idn.toNat? with
     | some i, some id =>
